@@ -9,6 +9,7 @@ import (
 	"github.com/tuneinsight/lattigo/v6/schemes/ckks"
 
 	"github.com/tuneinsight/lattigo/v6/core/rlwe"
+	"github.com/tuneinsight/lattigo/v6/utils"
 	"github.com/tuneinsight/lattigo/v6/utils/bignum"
 	"github.com/tuneinsight/lattigo/v6/utils/sampling"
 )
@@ -73,7 +74,7 @@ func (mltp MaskedLinearTransformationProtocol) WithParams(paramsOut ckks.Paramet
 		prec:         mltp.prec,
 		defaultScale: defaultScale,
 		mask:         mask,
-		encoder:      ckks.NewEncoder(paramsOut, mltp.prec),
+		encoder:      ckks.NewEncoder(paramsOut, utils.Max(mltp.prec, 54)),
 	}
 }
 
@@ -123,7 +124,8 @@ func NewMaskedLinearTransformationProtocol(paramsIn, paramsOut ckks.Parameters, 
 		mltp.mask[i] = new(big.Int)
 	}
 
-	mltp.encoder = ckks.NewEncoder(paramsOut, prec)
+	// The masks are handled as []*bignum.Complex, which the encoder only supports with arbitrary-precision roots (prec > 53).
+	mltp.encoder = ckks.NewEncoder(paramsOut, utils.Max(prec, 54))
 
 	return
 }
